@@ -403,7 +403,12 @@ func StrLen(s Term) Term  { return project("gs.len", SInt, "mk-gstr", 2, s) }
 func MkStr(data, off, ln Term) Term {
 	return App(SStr, "mk-gstr", data, off, ln)
 }
-func StrAt(s, i Term) Term { return Select(StrData(s), Add(StrOff(s), i)) }
+func StrAt(s, i Term) Term { return Select(StrData(s), SAt(s, i)) }
+
+// At is the absolute position of element i of a slice inside its backing array (off+i), kept behind an
+// uninterpreted symbol (defined by an axiom in the prelude) so that triggers contain no arithmetic.
+func At(s, i Term) Term  { return App(SInt, "at", s, i) }
+func SAt(s, i Term) Term { return App(SInt, "sat", s, i) }
 
 // Iface datatype accessors.
 func IfDyn(s Term) Term { return project("if.dyn", SInt, "mk-iface", 0, s) }
@@ -417,4 +422,8 @@ var NilIface = MkIface(IntLit(0), IntLit(0))
 const smtPrelude = `(declare-datatypes ((Slice 0)) (((mk-slice (sl.arr Int) (sl.off Int) (sl.len Int) (sl.cap Int)))))
 (declare-datatypes ((Str 0)) (((mk-gstr (gs.data (Array Int Int)) (gs.off Int) (gs.len Int)))))
 (declare-datatypes ((Iface 0)) (((mk-iface (if.dyn Int) (if.val Int)))))
+(declare-fun at (Slice Int) Int)
+(assert (forall ((s Slice) (i Int)) (! (= (at s i) (+ (sl.off s) i)) :pattern ((at s i)))))
+(declare-fun sat (Str Int) Int)
+(assert (forall ((s Str) (i Int)) (! (= (sat s i) (+ (gs.off s) i)) :pattern ((sat s i)))))
 `
